@@ -369,7 +369,7 @@ class Evaluator:
         return ('unit',)
 
     def early_return(self, e, env, body, depth):
-        """`if c { return v; }` in statement position -> (c, v)"""
+        """`if c { return v; }` or `if c { <diverges> }` (assert!) in statement position -> (c, v)"""
         while e.get('k') in ('DropTemps', 'Use'):
             e = e['e']
         if e.get('k') != 'If' or e.get('e') is not None:
@@ -384,21 +384,29 @@ class Evaluator:
             s = t['stmts'][-1]
             if s['k'] in ('Expr', 'Semi'):
                 last = s['e']
-        if last is None or last.get('k') != 'Ret':
-            return None
-        if len(t['stmts']) > (0 if t.get('expr') is not None else 1):
-            return None
-        c = self.ev_cond(e['c'], env, body, depth)
-        cb = c if T.is_bool(c) else T.unroot(c)
+        diverges = t.get('ty') == '!' or (last is not None and last.get('ty') == '!' and last.get('k') != 'Ret')
+        if last is not None and last.get('k') == 'Ret' and len(t['stmts']) <= (0 if t.get('expr') is not None else 1):
+            c = self.ev_cond(e['c'], env, body, depth)
+            cb = c if T.is_bool(c) else T.unroot(c)
 
-        def inner():
-            v = self.ev(last['e'], env, body, depth) if last.get('e') else ('unit',)
-            self.emit('ret', last, body, value=v)
-            return v
-        v = self.with_pc([cb], inner)
-        return c, ('ret', v)
+            def inner():
+                v = self.ev(last['e'], env, body, depth) if last.get('e') else ('unit',)
+                self.emit('ret', last, body, value=v)
+                return v
+            v = self.with_pc([cb], inner)
+            return c, ('ret', v)
+        if diverges:
+            c = self.ev_cond(e['c'], env, body, depth)
+            cb = c if T.is_bool(c) else T.unroot(c)
+            self.with_pc([cb], lambda: self.ev(t, dict(env), body, depth))
+            return c, ('never',)
+        return None
 
     def join(self, cond, a, b):
+        if a == ('never',):
+            return b
+        if b == ('never',):
+            return a
         ra = a[1] if isinstance(a, tuple) and a and a[0] == 'ret' else a
         rb = b[1] if isinstance(b, tuple) and b and b[0] == 'ret' else b
         if T.is_lin(ra) or T.is_lin(rb) or T.is_bool(ra):
@@ -670,9 +678,45 @@ class Evaluator:
         return x, self.item_facts(it, x)
 
     def havoc(self, loopnode, env):
+        elem_only = self.element_only_assigned(loopnode)
         for lid in self.assigned_locals(loopnode):
             if lid in env:
-                env[lid] = T.root(('havoc', lid, loopnode.get('_nid')))
+                cur = T.unroot(env[lid])
+                if lid in elem_only:
+                    # only elements are overwritten inside the loop: the length is that of the value before
+                    base = cur[1] if isinstance(cur, tuple) and cur and cur[0] == 'elemhavoc' else cur
+                    env[lid] = ('elemhavoc', base, lid, loopnode.get('_nid'))
+                else:
+                    env[lid] = T.root(('havoc', lid, loopnode.get('_nid')))
+
+    def element_only_assigned(self, n):
+        """locals whose only mutation inside n is `local[i] = ..` / `local[i] op= ..`"""
+        from .facts import walk
+        elem, other = set(), set()
+        for x in walk(n):
+            k = x.get('k')
+            if k in ('Assign', 'AssignOp'):
+                l = x['l']
+                r = self.place_root(l)
+                if r is None:
+                    continue
+                if l.get('k') == 'Index' and l['e'].get('k') == 'Path':
+                    elem.add(r)
+                else:
+                    other.add(r)
+            elif k == 'AddrOf' and x.get('mut'):
+                r = self.place_root(x['e'])
+                if r is not None:
+                    other.add(r)
+            elif k == 'MethodCall':
+                adj = x['recv'].get('adj') or []
+                if any('Mut' in a and 'Borrow' in a for a in adj) or x.get('recv_ty', '').startswith('&mut'):
+                    r = self.place_root(x['recv'])
+                    if r is not None:
+                        # IndexMut through a method (VecDeque) is still an element write; anything else is not
+                        if not (x.get('callee') or '').endswith('index_mut'):
+                            other.add(r)
+        return elem - other
 
     def ev_Loop(self, e, env, body, depth):
         snapshot = dict(env)
@@ -878,6 +922,8 @@ class Evaluator:
 
         # --- erasures
         if path in ERASE_METHODS:
+            if name == 'collect' and node is not None:
+                self.emit('consume', node, body, it=self.as_iter(a0), consumer='collect')
             return a0
         if name in ('from', 'into') and path in ('std::convert::From::from', 'std::convert::Into::into'):
             # conversions among numeric-like types are the identity
@@ -891,6 +937,8 @@ class Evaluator:
                 return self.eval_body(imp, args, depth + 1)
             return T.call('From::from<' + to + '>', *args)
         if path == 'std::iter::FromIterator::from_iter':
+            if node is not None:
+                self.emit('consume', node, body, it=self.as_iter(a0), consumer='from_iter')
             tys = [strip_refs(t) for t in targs]
             if tys and tys[0].startswith('std::vec::Vec'):
                 return a0
@@ -939,6 +987,9 @@ class Evaluator:
             if name == 'tee':
                 it = self.as_iter(a0)
                 return T.tup(it, it)
+            if name in ('sum', 'product', 'max', 'min', 'max_by', 'min_by', 'count', 'last', 'next', 'peek', 'any', 'all',
+                        'collect', 'fold', 'for_each', 'find', 'position', 'nth') and node is not None:
+                self.emit('consume', node, body, it=self.as_iter(a0), consumer=name)
             if name in ('sum', 'product'):
                 return T.root((name, self.as_iter(a0)))
             if name == 'max':
@@ -975,8 +1026,15 @@ class Evaluator:
                 return ('optfilter', T.unroot(a0), self.lam(args[1], depth))
             if name in ('is_err', 'is_ok', 'is_some', 'is_none'):
                 return (name, T.unroot(a0))
+        if path.startswith('std::iter::Peekable') and name in ('peek', 'next', 'next_if', 'next_if_eq', 'peek_mut'):
+            if node is not None:
+                self.emit('consume', node, body, it=self.as_iter(a0), consumer='peek' if 'peek' in name else 'next')
+            return ('peekof', self.as_iter(a0))
         if name == 'len' and len(args) == 1 and ('slice' in path or 'Vec' in path or 'VecDeque' in path):
-            return T.root(('len', T.unroot(a0)))
+            v = T.unroot(a0)
+            if isinstance(v, tuple) and v and v[0] == 'elemhavoc':
+                v = v[1]
+            return T.root(('len', v))
         if name == 'is_empty' and len(args) == 1 and ('slice' in path or 'Vec' in path or 'VecDeque' in path):
             return T.eq0(T.root(('len', T.unroot(a0))))
         if name in ('last', 'first', 'back', 'front') and len(args) == 1 and ('slice' in path or 'VecDeque' in path):
